@@ -484,7 +484,14 @@ static void checkGuardPending(World& w, int i, const Op& op, const Obs& before, 
 				// documented pattern: regions without a request of their own answer from an empty request slot
 				std::string tag;
 				if (pe == expE && !expE && !expX) tag = "pending_true_when_idle";                 // untouched region: exit/change spuriously true
-				else if (pe == expE && expX && !px) tag = "pending_exit_not_propagated";         // exits below a switched ancestor are not reported
+				else if (pe == expE && expX && !px) {
+					// documented: a utility / rank / select evaluation that looked at k's region left a request naming the active sub-state in its slot, the
+					// exit of the states below is then not reported. Without such an evaluation in this step a missing exit report is news.
+					const int R = sh.compoParent(k);
+					bool evaluated = false;
+					for (auto& e : h.trace) if ((e.k == EV_CB || e.k == EV_RET) && (e.method == M_UTILITY || e.method == M_RANK || e.method == M_SELECT) && e.state >= 0 && (e.state == R || e.state == k || (R >= 0 && sh.st[size_t(e.state)].parent == R) || sh.inSubtree(k, e.state))) evaluated = true;
+					if (evaluated) tag = "pending_exit_not_propagated";
+				}
 				else if (expE && !pe) tag = "pending_enter_not_propagated";                       // enters below a switched ancestor are not reported
 				else if (pe && !expE && px == expX && (sh.usesUtility || st.rounds[0].pending[0].kind == K_UTILIZE || st.rounds[0].pending[0].kind == K_RANDOMIZE)) tag = "pending_enter_stale_after_utility_evaluation";   // evaluating branches that are not chosen leaves their requests behind
 				w.violate("C13.guard_pending", b, i, tag);
